@@ -10,6 +10,9 @@ full strength:
   flex-float-zero-as-basis          (6a44d73)  Props/C07Expanders    `flex_unitless_zero` (+ example)
   font-face-src-format-indexerror   (be7a07b)  Props/C07Descriptors  example after `descriptors_only_propagate`
   counter-style-system-empty-indexerror (d71ddd0) Props/C07Descriptors `descriptor_empty_dropped`
+and two more in round 4:
+  flex-negative-factor-accepted     (c151619)  Props/C07Numeric      `flex_factor_nonneg` (+ example)
+  image-resolution-zero-division    (d011d54)  Props/C07Numeric      `image_resolution_positive`, `image_resolution_total`
 -/
 import WpModel.Model.Declarations
 import WpModel.Model.VarSubst
@@ -36,30 +39,5 @@ theorem var_fallback_commas_dropped :
     (match subst (fun _ => []) 5 fbTok with
       | some [.ident "Arial", .comma, .ident "sans-serif"] => true | _ => false) = true := by
   decide
-
-/-! ### `flex-grow: -1`: a negative flex factor is not dropped -/
-
-/-- css-flexbox-1 §7.2/7.3: "`<number [0,∞]>` … negative values are invalid".  The validator of `flex-grow` /
-`flex-shrink` is `if token.type == 'number': return token.value`: `flex-grow: -1` is accepted (and overrides an
-earlier valid `flex-grow: 2`) instead of being ignored (finding `flex-negative-factor-accepted`); so the range
-statement of `C07.flex_factor_partial` stops at "the value is the number written". -/
-theorem flex_negative_factor_accepted :
-    Num07.validate "flex-grow" [{ intValue := some (-1), keyword := none, ltok := .number (-1) }]
-      = some (some (.num (-1))) ∧
-    Num07.validate "flex-shrink" [{ intValue := none, keyword := none, ltok := .number (-1 / 2) }]
-      = some (some (.num (-1 / 2))) := by
-  decide +kernel
-
-/-! ### `image-resolution: 0dppx`: a non-positive resolution is accepted, and zero aborts rendering -/
-
-/-- css-images-3 §5.1 / css-values: the `<resolution>` of `image-resolution` must be positive (zero and negative
-values are invalid).  `get_resolution` accepts any dimension in dppx / dpi / dpcm: `image-resolution: 0dppx` is kept
-and `RasterImage.get_intrinsic_size` divides by it — `ZeroDivisionError` aborts the rendering of any document with
-a raster `<img>` (finding `image-resolution-zero-division`; also C02, C13); `-1dppx` gives negative intrinsic sizes. -/
-theorem image_resolution_zero_division :
-    Num07.getResolution (.dimension 0 "dppx" "dppx") = some 0 ∧
-    Num07.rasterIntrinsicSize 20 10 0 = .error (.zeroDivision "get_intrinsic_size") ∧
-    Num07.getResolution (.dimension (-1) "dppx" "dppx") = some (-1) := by
-  refine ⟨by decide +kernel, by decide +kernel, by decide +kernel⟩
 
 end Wp.Witness.C07
